@@ -1,6 +1,8 @@
 #!/bin/bash
 # runs every thorough tier once, sequentially (used with `vp run`); prints one summary block per check
-for c in C01 C02 C14 C15 C17 C03 C16 C20 C05 C11 C07 C08 C10 C19 C06 C12 C09 C13 C04; do
+# usage: tools/run_thorough_all.sh [Cxx ...]   (default: all claimed checks)
+LIST=${@:-C01 C02 C14 C15 C17 C03 C16 C20 C05 C11 C07 C08 C10 C19 C06 C12 C09 C13 C04}
+for c in $LIST; do
   echo "=== $c $(date +%H:%M:%S)"
   VERIF_SEED=${VERIF_SEED:-11} ./check $c --tier thorough --no-evidence 2>&1 | grep -E "^violated|^VIOLATION|^done|HARNESS|KNOWN|further" | cut -c1-400
 done
